@@ -495,6 +495,14 @@ func replayEmit(o emitObl, runs []emitRun) map[string]interface{} {
 			reproduced, observed = true, "the sample message of the emitted test never mentions the member"
 		}
 		show("base")
+	case "repeat-shape":
+		single := *cell
+		single.Repeat = false
+		r2, err := runCells([]cellReq{{ID: "single", Lang: lang, Dir: dir, DSL: cellDSL(single, vs[0].opts)}})
+		if err == nil && r2["single"].Err == "" && r2["single"].Text == t("base") {
+			reproduced, observed = true, "the emitted test text is identical for the repeated member and for the same member unrepeated: the sample is not a collection"
+		}
+		show("base")
 	case "sized":
 		// char[6] in the concrete cell: the sample literal must have six characters
 		ok6 := false
